@@ -99,6 +99,9 @@ fn dbinfo(a: &Args) {
 fn main() {
     let a = Args::parse();
     report::install_panic_hook();
+    if a.flag("trace-log") {
+        report::install_trace_logger();
+    }
     match a.cmd.as_str() {
         "dbinfo" => dbinfo(&a),
         "c01" => rt::main(&a, gen_dom::Fmt::Binary),
